@@ -15,7 +15,7 @@ func init() {
 	property("C20",
 		"Static conformance of the rejection mechanisms: (a) the break/continue scope stacks are pushed before and popped after the body parse of while, do-while (both stacks) and switch (break stack only) on every non-error path, and their helper functions touch only their own stack; (b) break/continue nodes are returned only under the non-nil test of the stack top, which is what they record, continue additionally only directly before '}', errors located at the keyword; (c) duplicate case values, a second default and a redefined constant are rejected by a check-before-insert on the same key that is stored, with the error located at the duplicate; (d) text and movement name clashes are rejected by check-before-insert over inline and explicit definitions after all hoisting; (e) every script label is checked against all generated chunk labels of the script and all text labels before it is rendered. A name or value that is already taken always ends in an error, every text / movement / case goes through its check (C20.c, C20.d), and the script emitter always receives the text-label set (C20.e).",
 		[]string{"errors returned by the parser propagate to ParseProgram (rule C18.d), so an unbalanced stack on an error path is never observed", "go/ssa lowering is faithful to the source"},
-		"C20.a", "C20.b", "C20.c", "C20.d", "C20.e", "C18.d", "C18.e", "C18.m", "C10.e")
+		"C20.a", "C20.b", "C20.c", "C20.d", "C20.e", "C18.d", "C18.e", "C18.m", "C10.e", "C18.n")
 
 	register(&Rule{ID: "C20.a", Doc: "scope stacks: push before / pop after the body parse, right stacks, helpers touch only their stack", Floor: 26, Run: c20a})
 	register(&Rule{ID: "C20.b", Doc: "break/continue only under a non-empty scope stack; node records the stack top; errors at the keyword", Floor: 6, Run: c20b})
